@@ -212,6 +212,17 @@ CONTAINER_NONRAISING = {'append', 'add', 'clear', 'copy', 'get', 'items',
                         'difference_update'}
 
 
+class EB(int):
+    """Target of an exception edge that only a BaseException which is not an
+    Exception (KeyboardInterrupt, SystemExit, GeneratorExit, greenlet
+    timeouts ...) takes: it passes an `except Exception:` handler.  Such
+    edges get the label 'eb'; rules follow them only if they ask to."""
+
+
+def _lab(t):
+    return 'eb' if isinstance(t, EB) else 'e'
+
+
 class RaiseSpec:
     """What a statement may raise: any builtin (implicit) exception, the
     in-repo exception classes raised explicitly by the functions it calls
@@ -281,7 +292,7 @@ class Builder:
                                    {'precondition': p})
                     t.succ.append((entry, 'T'))
                     for x in kb.exc({'AssertionError'}):
-                        t.succ.append((x, 'e'))
+                        t.succ.append((int(x), _lab(x)))
                     entry = t.id
                 return entry
 
@@ -317,7 +328,7 @@ class Builder:
             n.succ.append((k.nxt if nxt is None else nxt, label))
         if self.may_raise(exprs, fr):
             for t in k.exc(self.raise_spec(exprs, fr)):
-                n.succ.append((t, 'e'))
+                n.succ.append((int(t), _lab(t)))
         return self.inline_calls(exprs, n.id, k, fr, s)
 
     def raise_spec(self, exprs, fr):
@@ -552,7 +563,7 @@ class Builder:
             n.succ.append((f_entry, 'F'))
         if self.may_raise([test], fr):
             for t in k.exc(self.raise_spec([test], fr)):
-                n.succ.append((t, 'e'))
+                n.succ.append((int(t), _lab(t)))
         return self.inline_calls([test], n.id, k, fr, s)
 
     def stmt_While(self, s, k, fr, yb):
@@ -578,12 +589,12 @@ class Builder:
             and s.iter.func.id in ('range', 'sorted', 'list', 'enumerate',
                                    'reversed', 'zip', 'tuple'))
         for t in k.exc(RaiseSpec((), not simple_iter)):
-            head.succ.append((t, 'e'))
+            head.succ.append((int(t), _lab(t)))
         it = self.g.new('foriter', s.iter, fr, {'stmt': s})
         it.succ.append((head.id, 'n'))
         if self.may_raise([s.iter], fr):
             for t in k.exc(self.raise_spec([s.iter], fr)):
-                it.succ.append((t, 'e'))
+                it.succ.append((int(t), _lab(t)))
         return self.inline_calls([s.iter], it.id, k, fr, s)
 
     stmt_AsyncFor = stmt_For
@@ -628,7 +639,7 @@ class Builder:
                         targets.append(t)
         n.info['raised'] = raised
         for t in targets:
-            n.succ.append((t, 'e'))
+            n.succ.append((int(t), _lab(t)))
         return self.inline_calls(exprs, n.id, k, fr, s)
 
     def stmt_Assert(self, s, k, fr, yb):
@@ -640,7 +651,7 @@ class Builder:
                 if self.may_raise([s.test], fr) else []):
             if t not in seen:
                 seen.add(t)
-                n.succ.append((t, 'e'))
+                n.succ.append((int(t), _lab(t)))
         return self.inline_calls([s.test], n.id, k, fr, s)
 
     def stmt_FunctionDef(self, s, k, fr, yb):
@@ -685,7 +696,7 @@ class Builder:
             if 'x' not in exc_memo:
                 rr = self.g.new('reraise', astnode, fr)
                 for t in k.exc(None):
-                    rr.succ.append((t, 'e'))
+                    rr.succ.append((int(t), _lab(t)))
                 exc_memo['x'] = build_cleanup(rr.id, 'exc')
             return [exc_memo['x']]
 
@@ -728,6 +739,12 @@ class Builder:
                 if m != 'no':
                     out.append(entry)
                 if m == 'yes':
+                    if types is not None and 'Exception' in types and \
+                            'BaseException' not in types and (
+                                raised is None or
+                                isinstance(raised, RaiseSpec)):
+                        # a BaseException that is not an Exception passes
+                        out.extend(EB(t) for t in k.exc(raised))
                     return out
             for t in k.exc(raised):
                 if t not in out:
@@ -855,7 +872,7 @@ class Builder:
             n = self.g.new('withenter', s, fr, {'item': item})
             n.succ.append((body, 'n'))
             for t in k.exc(self.raise_spec([ce], fr)):
-                n.succ.append((t, 'e'))
+                n.succ.append((int(t), _lab(t)))
             return self.inline_calls([ce], n.id, k, fr, s)
 
         return self.protected(build_body, build_cleanup, k, fr, has_ret,
